@@ -218,6 +218,8 @@ func (n *orderedPodNsLister) Get(name string) (*v1.Pod, error) {
 	return nil, apierrors.NewNotFound(schema.GroupResource{Resource: "pods"}, name)
 }
 
+const syElsewhere = "elsewhere"
+
 // syCrash is the sentinel the reactor panics with to model the controller process dying at an API call.
 type syCrash struct{ at string }
 
@@ -274,6 +276,13 @@ func actionKey(a k8stesting.Action) string {
 		if m, ok := a.(k8stesting.UpdateAction).GetObject().(metav1.Object); ok {
 			name = m.GetName()
 		}
+	}
+	if ns := a.GetNamespace(); ns != rcNS {
+		// a call that leaves the set's namespace (a list over all namespaces, a write to a bystander) is visible as such
+		if verb == "list" {
+			return "list:" + res + "s@" + ns
+		}
+		name = ns + "/" + name
 	}
 	switch {
 	case verb == "list":
@@ -568,6 +577,23 @@ func buildSyWorld(c *syCase) *syWorld {
 	for _, o := range append(append([]int(nil), c.pvcCache...), c.pvcAPI...) {
 		kubeObjs = append(kubeObjs, syClaim(o))
 	}
+	// bystanders in another namespace, in the API and in the caches: a same-named set's pods (one orphan, one owned by that set)
+	// with matching labels and canonical names, and an orphan revision with matching labels and the upgrade marker. Nothing of
+	// the set under test may ever read past its namespace or touch them.
+	for i, owner := range []string{"n", "o"} {
+		pod := sts.VerifNewStatefulSetPod(okSet, i)
+		pod.Namespace, pod.UID = syElsewhere, types.UID(fmt.Sprintf("pod-elsewhere-%d", i))
+		pod.OwnerReferences = syOwnerRefs(owner)
+		pod.Labels = map[string]string{"app": rcSetName, apps.StatefulSetPodNameLabel: pod.Name}
+		pod.Status.Phase = v1.PodRunning
+		pod.Status.Conditions = []v1.PodCondition{{Type: v1.PodReady, Status: v1.ConditionTrue}}
+		w.cpods = append(w.cpods, pod)
+		kubeObjs = append(kubeObjs, pod.DeepCopy())
+	}
+	kubeObjs = append(kubeObjs, &kubeapps.ControllerRevision{
+		ObjectMeta: metav1.ObjectMeta{Name: rcSetName + "-elsewhere", Namespace: syElsewhere, UID: "rev-elsewhere",
+			Labels: map[string]string{"app": rcSetName, helper.UpgradeToAdvancedStatefulSetAnn: rcSetName}},
+		Data: runtime.RawExtension{Raw: syPatchOf(c, c.tmpl)}, Revision: 1})
 	w.kube = kubefake.NewSimpleClientset(kubeObjs...)
 	w.kube.PrependReactor("*", "*", w.react)
 	w.pc.PrependReactor("*", "*", w.react)
